@@ -111,21 +111,68 @@ type absState struct {
 // AbsEval returns the sign of fn's (single int or bool) result under facts f;
 // ok is false, with a reason, when some step could not be decided.
 func AbsEval(fn *ssa.Function, m AbsModel, f AbsFacts) (res AbsVal, ok bool, why string) {
+	rs, ok, why := AbsEvalMulti(fn, m, f)
+	if !ok {
+		return AbsVal{}, false, why
+	}
+	if len(rs) != 1 {
+		return AbsVal{}, false, "not a single-result function"
+	}
+	if rs[0].Kind != AbsInt && rs[0].Kind != AbsBool {
+		return AbsVal{}, false, "result is not decided by the facts"
+	}
+	return rs[0], true, ""
+}
+
+// AbsEvalMulti evaluates a function with any number of results.  A result may
+// also be a projection (e.g. the index returned by a search the model knows).
+// When a branch condition is not decided by the facts both successors are
+// followed, and the evaluation succeeds only if all paths agree on the results.
+func AbsEvalMulti(fn *ssa.Function, m AbsModel, f AbsFacts) (res []AbsVal, ok bool, why string) {
 	if fn == nil || len(fn.Blocks) == 0 {
-		return AbsVal{}, false, "no body"
+		return nil, false, "no body"
 	}
 	st := &absState{fn: fn, m: m, f: f, vals: map[ssa.Value]AbsVal{}, arrs: map[*ssa.Alloc]map[int64]AbsVal{}}
 	for i, p := range fn.Params {
-		if i < 2 {
-			st.vals[p] = AbsVal{Kind: AbsParam, Idx: i}
+		st.vals[p] = AbsVal{Kind: AbsParam, Idx: i}
+	}
+	forks := 0
+	return st.run(fn.Blocks[0], nil, &forks)
+}
+
+func (st *absState) clone() *absState {
+	c := &absState{fn: st.fn, m: st.m, f: st.f, vals: map[ssa.Value]AbsVal{}, arrs: map[*ssa.Alloc]map[int64]AbsVal{}, steps: st.steps}
+	for k, v := range st.vals {
+		c.vals[k] = v
+	}
+	for k, v := range st.arrs {
+		m := map[int64]AbsVal{}
+		for i, e := range v {
+			m[i] = e
+		}
+		c.arrs[k] = m
+	}
+	return c
+}
+
+func sameAbs(a, b []AbsVal) bool {
+	if len(a) != len(b) {
+		return false
+	}
+	for i := range a {
+		if a[i].String() != b[i].String() || a[i].Kind != b[i].Kind {
+			return false
 		}
 	}
-	var prev *ssa.BasicBlock
-	b := fn.Blocks[0]
+	return true
+}
+
+func (st *absState) run(b, prev *ssa.BasicBlock, forks *int) (res []AbsVal, ok bool, why string) {
+	fn := st.fn
 	for {
 		st.steps++
 		if st.steps > 500 {
-			return AbsVal{}, false, "evaluation does not terminate (loop)"
+			return nil, false, "evaluation does not terminate (loop)"
 		}
 		var next *ssa.BasicBlock
 		for _, in := range b.Instrs {
@@ -139,7 +186,24 @@ func AbsEval(fn *ssa.Function, m AbsModel, f AbsFacts) (res AbsVal, ok bool, why
 			case *ssa.If:
 				c := st.val(x.Cond)
 				if c.Kind != AbsBool {
-					return AbsVal{}, false, fmt.Sprintf("branch condition %s at %s is not decided by the facts (%s)", x.Cond.Name(), posOf(fn, in), st.why)
+					// not decided: both ways must give the same results
+					*forks++
+					if *forks > 6 {
+						return nil, false, fmt.Sprintf("branch condition %s at %s is not decided by the facts (%s)", x.Cond.Name(), posOf(fn, in), st.why)
+					}
+					cause := st.why
+					r0, ok0, w0 := st.clone().run(b.Succs[0], b, forks)
+					if !ok0 {
+						return nil, false, w0
+					}
+					r1, ok1, w1 := st.clone().run(b.Succs[1], b, forks)
+					if !ok1 {
+						return nil, false, w1
+					}
+					if !sameAbs(r0, r1) {
+						return nil, false, fmt.Sprintf("the result depends on the condition at %s, which the model does not know (%s)", posOf(fn, in), cause)
+					}
+					return r0, true, ""
 				}
 				if c.Bool {
 					next = b.Succs[0]
@@ -149,14 +213,14 @@ func AbsEval(fn *ssa.Function, m AbsModel, f AbsFacts) (res AbsVal, ok bool, why
 			case *ssa.Jump:
 				next = b.Succs[0]
 			case *ssa.Return:
-				if len(x.Results) != 1 {
-					return AbsVal{}, false, "not a single-result function"
+				out := make([]AbsVal, len(x.Results))
+				for i, rv := range x.Results {
+					out[i] = st.val(rv)
+					if out[i].Kind == AbsUnknown {
+						return nil, false, fmt.Sprintf("result %s at %s is not decided by the facts (%s)", rv.Name(), posOf(fn, in), st.why)
+					}
 				}
-				r := st.val(x.Results[0])
-				if r.Kind != AbsInt && r.Kind != AbsBool {
-					return AbsVal{}, false, fmt.Sprintf("result %s at %s is not decided by the facts (%s)", x.Results[0].Name(), posOf(fn, in), st.why)
-				}
-				return r, true, ""
+				return out, true, ""
 			case *ssa.Store:
 				if ia, ok := x.Addr.(*ssa.IndexAddr); ok {
 					if al, ok := ia.X.(*ssa.Alloc); ok {
@@ -174,11 +238,11 @@ func AbsEval(fn *ssa.Function, m AbsModel, f AbsFacts) (res AbsVal, ok bool, why
 			case ssa.Value:
 				st.vals[x] = st.eval(x)
 			default:
-				return AbsVal{}, false, fmt.Sprintf("unsupported instruction %T at %s", in, posOf(fn, in))
+				return nil, false, fmt.Sprintf("unsupported instruction %T at %s", in, posOf(fn, in))
 			}
 		}
 		if next == nil {
-			return AbsVal{}, false, "block without a decided successor"
+			return nil, false, "block without a decided successor"
 		}
 		prev, b = b, next
 	}
@@ -238,6 +302,14 @@ func (st *absState) eval(v ssa.Value) AbsVal {
 	case *ssa.Alloc:
 		return AbsVal{Kind: AbsArray, Arr: x}
 	case *ssa.IndexAddr:
+		if base := st.val(x.X); base.Kind == AbsParam {
+			if i, ok := ConstInt(x.Index); ok {
+				if sym, ok := st.m.Project(fmt.Sprintf("[%d]", i), base); ok {
+					return AbsVal{Kind: AbsProj, Sym: sym, Idx: base.Idx}
+				}
+			}
+			return st.unknown("element access is not part of the model")
+		}
 		return AbsVal{} // resolved at the store
 	case *ssa.Slice:
 		if a := st.val(x.X); a.Kind == AbsArray && x.Low == nil && x.High == nil {
@@ -349,6 +421,16 @@ func (st *absState) binop(x *ssa.BinOp) AbsVal {
 				return bl(t)
 			}
 		}
+		{
+			// ordered comparison with a constant: ask the model with the operator spelled out, projection on the left
+			op := x.Op
+			if b.Kind == AbsProj {
+				op = flipOp(op)
+			}
+			if sym, ok := st.m.Predicate(fmt.Sprintf("%sconst:%d", op, *c.Exact), pr); ok {
+				return bl(st.f.Pred[sym][pr.Idx])
+			}
+		}
 		return st.unknown("comparison of %s with constant %d is not part of the model", pr, *c.Exact)
 	case a.Kind == AbsInt && b.Kind == AbsInt:
 		if a.Exact != nil && b.Exact != nil {
@@ -405,7 +487,7 @@ func (st *absState) call(x *ssa.Call) AbsVal {
 	if bi, ok := c.Value.(*ssa.Builtin); ok {
 		if bi.Name() == "len" && len(c.Args) == 1 {
 			a := st.val(c.Args[0])
-			if a.Kind == AbsProj {
+			if a.Kind == AbsProj || a.Kind == AbsParam {
 				if sym, ok := st.m.Project("len", a); ok {
 					return AbsVal{Kind: AbsProj, Sym: sym, Idx: a.Idx}
 				}
